@@ -28,12 +28,12 @@ vars == <<status, inviter, deleg, pdeleg, invites, hist, last>>
 view == <<status, inviter, deleg, pdeleg, invites>>
 
 Init == /\ status = [a \in Actors |-> CASE a \in {"g", "v1", "v2"} -> "Val" [] a = "c" -> "Cand" [] OTHER -> "Undef"]
-        /\ inviter = [a \in Actors |-> None]
+        /\ inviter = [a \in Actors |-> IF a = "c" THEN "g" ELSE None]     \* the candidate was invited by the god identity
         /\ deleg = [a \in Actors |-> None]
         /\ pdeleg = [a \in Actors |-> None]
-        /\ invites = [a \in Actors |-> IF a \in {"g", "v1", "v2"} THEN 2 ELSE 0]
+        /\ invites = [a \in Actors |-> IF a = "g" THEN 2 ELSE IF a \in {"v1", "v2"} THEN 1 ELSE 0]
         /\ hist = <<>>
-        /\ last = [op |-> "init", a |-> None, b |-> None, ok |-> TRUE]
+        /\ last = [op |-> "init", a |-> None, b |-> None, ok |-> TRUE, talive |-> FALSE, tst |-> "na", rel |-> "na"]
 
 Alive(a) == status[a] \in {"Invite", "Cand", "Val"}
 Invitees(a) == {x \in Actors : inviter[x] = a}
@@ -46,7 +46,13 @@ Dead(a) == /\ status' = [status EXCEPT ![a] = "Killed"]
            /\ UNCHANGED invites
 
 Attempt(op, a, b, ok) == /\ Len(hist) < MaxDepth
-                         /\ last' = [op |-> op, a |-> a, b |-> b, ok |-> ok]
+                         /\ last' = [op |-> op, a |-> a, b |-> b, ok |-> ok,
+                                     talive |-> IF b \in Actors THEN Alive(b) ELSE FALSE,   \* is the target a live identity?
+                                     tst |-> IF b \in Actors THEN status[b] ELSE "na",       \* status of the target
+                                     rel |-> IF b \notin Actors THEN "na"                    \* relationship of the actor to the target
+                                             ELSE IF inviter[b] = a THEN "inviter"
+                                             ELSE IF deleg[b] = a THEN "pool"
+                                             ELSE IF inviter[b] = None THEN "no-inviter" ELSE "foreign-inviter"]
                          /\ hist' = Append(hist, last')
 
 Reject(op, a, b) == Attempt(op, a, b, FALSE) /\ UNCHANGED <<status, inviter, deleg, pdeleg, invites>>
